@@ -129,6 +129,29 @@ theorem distinct_keys_decide_alone (h : List LinkTrack.Op) (hwf : WF h) (r : Req
         | cons _ _ => simp [hsn] at hip
       simp [withBlock, this]
 
+/-- non-vacuity of `responder_decision` / `distinct_keys_decide_alone`: a well-formed interleaved history
+    of two requests with distinct dedup keys over the same block 9, and one with the same key: the
+    second request gets the block in the first case only (a test of concrete values) -/
+example :
+    WF [.dedup 1 5, .dedup 2 6, .trav 1 9 true] ∧
+    (∀ r', r' ≠ 2 → inProgress r' [.dedup 1 5, .dedup 2 6, .trav 1 9 true] = true →
+      scopeOf r' [.dedup 1 5, .dedup 2 6, .trav 1 9 true] ≠ scopeOf 2 [.dedup 1 5, .dedup 2 6, .trav 1 9 true]) ∧
+    (LinkTrack.step (LinkTrack.run [.dedup 1 5, .dedup 2 6, .trav 1 9 true]).1 (.trav 2 9 true)).2 = .sent true 1 ∧
+    WF [.dedup 1 5, .dedup 2 5, .trav 1 9 true] ∧
+    (LinkTrack.step (LinkTrack.run [.dedup 1 5, .dedup 2 5, .trav 1 9 true]).1 (.trav 2 9 true)).2 = .sent false 1 := by
+  refine ⟨by decide, ?_, by decide, by decide, by decide⟩
+  intro r' hne hip
+  -- only requests 1 and 2 are in progress
+  by_cases h1 : r' = 1
+  · subst h1; decide
+  · exfalso
+    have h1' : ¬ (1 = r') := fun h => h1 h.symm
+    have h2' : ¬ (2 = r') := fun h => hne h.symm
+    have : inProgress r' [.dedup 1 5, .dedup 2 6, .trav 1 9 true] = false := by
+      simp [inProgress, since, sinceStep, Op.req, Op.isEnd, h1', h2']
+    rw [this] at hip
+    cases hip
+
 /-- the operations of request `r` in a history -/
 def ownOps (r : Req) (h : List LinkTrack.Op) : List LinkTrack.Op := h.filter (fun o => o.req == r)
 
